@@ -72,6 +72,22 @@ Proof.
   apply str_of_uint_of_str, Eu.
 Qed.
 
+Lemma str_of_uint_digits u : all_b is_ascii_digit (str_of_uint u) = true.
+Proof. induction u; cbn; try reflexivity; exact IHu. Qed.
+
+Lemma unorm_fix_canonical u : unorm u = u -> canonical_dec (str_of_uint u) = true.
+Proof.
+  intros H. destruct u as [|v|v|v|v|v|v|v|v|v|v];
+  try (cbn [str_of_uint canonical_dec]; destruct (str_of_uint v) eqn:E; [reflexivity|];
+       rewrite <- E; change (all_b is_ascii_digit (?c :: str_of_uint v)) with (is_ascii_digit c && all_b is_ascii_digit (str_of_uint v));
+       rewrite str_of_uint_digits; reflexivity).
+  - discriminate.
+  - unfold unorm in H. destruct (nzhead (D0 v)) eqn:E; try (exfalso; apply (DecimalFacts.nzhead_nonzero (D0 v) v); congruence).
+    inversion H; subst. reflexivity.
+Qed.
+
 Lemma print_dec_canonical n : canonical_dec (print_dec n) = true.
 Proof.
-Abort.
+  unfold print_dec. apply unorm_fix_canonical.
+  rewrite <- (DecimalN.Unsigned.to_of (N.to_uint n)), DecimalN.Unsigned.of_to. reflexivity.
+Qed.
